@@ -23,6 +23,15 @@ pub struct DriverRig {
     /// (requests to peers, responses, kad queries): taken off the channel, kept for the harness
     pub outbox: VecDeque<NetworkSwarmCmd>,
     pub events: VecDeque<NetworkEvent>,
+    pub local_q: VecDeque<LocalSwarmCmd>,
+    pub net_q: VecDeque<NetworkSwarmCmd>,
+}
+
+#[derive(Clone, Copy, Debug, PartialEq, Eq)]
+pub enum Step {
+    Poll(usize),
+    Local,
+    Net,
 }
 
 pub enum Cmd {
@@ -42,7 +51,7 @@ impl DriverRig {
             b.build_node(root_buf)
         });
         let (network, events_rx, driver) = res.expect("build_node");
-        let mut rig = DriverRig { driver, network, events_rx, exec, root: root.to_path_buf(), outbox: VecDeque::new(), events: VecDeque::new() };
+        let mut rig = DriverRig { driver, network, events_rx, exec, root: root.to_path_buf(), outbox: VecDeque::new(), events: VecDeque::new(), local_q: VecDeque::new(), net_q: VecDeque::new() };
         rig.settle();
         rig
     }
@@ -52,7 +61,7 @@ impl DriverRig {
         let kp = rigs::fixtures::ed_keypair(identity);
         let (res, _) = exec.capture(None, "startup", || NetworkBuilder::new(kp, true).build_client());
         let (network, events_rx, driver) = res.expect("build_client");
-        let mut rig = DriverRig { driver, network, events_rx, exec, root: PathBuf::new(), outbox: VecDeque::new(), events: VecDeque::new() };
+        let mut rig = DriverRig { driver, network, events_rx, exec, root: PathBuf::new(), outbox: VecDeque::new(), events: VecDeque::new(), local_q: VecDeque::new(), net_q: VecDeque::new() };
         rig.settle();
         rig
     }
@@ -100,6 +109,66 @@ impl DriverRig {
         )
     }
 
+    // ---- one-step-at-a-time interface for schedule exploration -------------------------------
+
+    /// Move whatever sits in the driver's channels into the rig-side FIFO queues.
+    pub fn pull(&mut self) {
+        while let Some(c) = self.next_local_cmd() {
+            self.local_q.push_back(c);
+        }
+        while let Some(c) = self.next_network_cmd() {
+            self.net_q.push_back(c);
+        }
+        self.drain_events();
+    }
+
+    /// What can happen next: every runnable task (one poll), the oldest queued local command,
+    /// the oldest queued network command. Order = default priority (index 0 is the default choice).
+    pub fn enabled_steps(&mut self) -> Vec<Step> {
+        self.pull();
+        let mut v: Vec<Step> = self.exec.runnable().into_iter().map(Step::Poll).collect();
+        if !self.local_q.is_empty() {
+            v.push(Step::Local);
+        }
+        if !self.net_q.is_empty() {
+            v.push(Step::Net);
+        }
+        v
+    }
+
+    pub fn step_label(&self, s: &Step) -> String {
+        match s {
+            Step::Poll(id) => {
+                let i = self.exec.info(*id);
+                format!("poll#{}({}/{})", id, i.func, i.tag)
+            }
+            Step::Local => format!("local({})", self.local_q.front().map(|c| format!("{c:?}").chars().take(40).collect::<String>()).unwrap_or_default()),
+            Step::Net => "net".to_string(),
+        }
+    }
+
+    pub fn take_step(&mut self, s: Step) {
+        match s {
+            Step::Poll(id) => {
+                let _ = self.exec.poll(id);
+            }
+            Step::Local => {
+                if let Some(c) = self.local_q.pop_front() {
+                    let _ = self.handle_local(c);
+                }
+            }
+            Step::Net => {
+                if let Some(c) = self.net_q.pop_front() {
+                    if Self::is_external(&c) {
+                        self.outbox.push_back(c);
+                    } else {
+                        let _ = self.handle_network(c);
+                    }
+                }
+            }
+        }
+    }
+
     /// Default schedule: run every runnable task FIFO, handle every queued command FIFO, until
     /// nothing moves. External network commands are parked in `outbox`.
     pub fn settle(&mut self) {
@@ -112,17 +181,20 @@ impl DriverRig {
                 let _ = self.exec.poll(id);
                 moved = true;
             }
-            while let Some(c) = self.next_local_cmd() {
+            self.pull();
+            while let Some(c) = self.local_q.pop_front() {
                 let _ = self.handle_local(c);
                 moved = true;
+                self.pull();
             }
-            while let Some(c) = self.next_network_cmd() {
+            while let Some(c) = self.net_q.pop_front() {
                 if Self::is_external(&c) {
                     self.outbox.push_back(c);
                 } else {
                     let _ = self.handle_network(c);
                 }
                 moved = true;
+                self.pull();
             }
             self.drain_events();
             if !moved {
